@@ -199,13 +199,6 @@ pub fn numbers() -> Vec<V> {
     for x in [f64::NAN, f64::INFINITY, f64::NEG_INFINITY] {
         v.push(V::num(x));
     }
-    for x in digit_shape_numbers() {
-        v.push(V::num(x));
-        v.push(V::numu(x, "kW"));
-    }
-    for (i, x) in digit_shape_numbers().into_iter().enumerate() {
-        v.push(V::numu(x, UNITS[i % UNITS.len()]));
-    }
     for &u in UNITS {
         for &x in &[0.0, -0.0, 1.0, -1.0, 0.5, 1e-7, 123456789.125, 1e21, 5e-324, -5e-324, -2.5e-3, 100.0, 4503599627370496.5] {
             v.push(V::numu(x, u));
@@ -321,8 +314,21 @@ pub fn scalars(tier: Tier) -> Vec<V> {
     for (a, b) in [(90.0, 180.0), (-90.0, -180.0), (90.0, -180.0), (-90.0, 180.0)] {
         v.push(V::Coord(a, b));
     }
-    // coordinates by the shape of their decimal text (see digit_shape_numbers)
-    let shaped: Vec<f64> = digit_shape_numbers().into_iter().filter(|x| x.abs() <= 180.0).collect();
+    v.extend(digit_shape_values());
+    v
+}
+
+/// Numbers (bare, with "kW", with a rotating unit) and coordinates chosen by the shape of their
+/// decimal text (see digit_shape_numbers); part of Σ.
+pub fn digit_shape_values() -> Vec<V> {
+    let mut v = vec![];
+    let nums = digit_shape_numbers();
+    for (i, &x) in nums.iter().enumerate() {
+        v.push(V::num(x));
+        v.push(V::numu(x, "kW"));
+        v.push(V::numu(x, UNITS[i % UNITS.len()]));
+    }
+    let shaped: Vec<f64> = nums.into_iter().filter(|x| x.abs() <= 180.0).collect();
     for (i, &x) in shaped.iter().enumerate() {
         let other = shaped[(i * 7 + 3) % shaped.len()];
         if x.abs() <= 90.0 {
@@ -330,6 +336,14 @@ pub fn scalars(tier: Tier) -> Vec<V> {
         }
         v.push(V::Coord(if other.abs() <= 90.0 { other } else { 1.5 }, x));
     }
+    v
+}
+
+/// Σ without the digit-shape family (for stages that explore several deviations per value)
+pub fn scalars_classic(tier: Tier) -> Vec<V> {
+    let n = digit_shape_values().len();
+    let mut v = scalars(tier);
+    v.truncate(v.len() - n);
     v
 }
 
